@@ -199,13 +199,35 @@ fn fb_layer(s: &InnerSpec) -> feedback::Layer {
 
 /// build the real network through the public builder API, then install the given parameters
 pub fn build(spec: &NetSpec) -> Result<Network, String> {
+    build_with(spec, false)
+}
+
+/// an input of the network's input shape (for the evaluations a "warm" build makes along the way)
+fn warm_input(shape: &Shape) -> Tensor {
+    let val = |i: usize| 0.25 * (i % 5) as f32 - 0.4;
+    match shape {
+        Shape::Single(n) => Tensor::single((0..*n).map(val).collect()),
+        Shape::Triple(c, h, w) => Tensor::triple((0..*c).map(|a| (0..*h).map(|b| (0..*w).map(|d| val(a * 7 + b * 3 + d)).collect()).collect()).collect()),
+        _ => Tensor::single(vec![0.0]),
+    }
+}
+
+/// `warm`: the network is evaluated once before its connections / accumulations / objective / optimizer are configured
+/// and once after; both evaluations are discarded (a panic of the half-configured network is ignored)
+pub fn build_with(spec: &NetSpec, warm: bool) -> Result<Network, String> {
     try_run(|| {
         let mut net = Network::new(spec.input.clone());
+        let mut warmed = !warm;
         // the accumulations are configured either before the first connection is made or after the last one (the order of
         // the configuration calls must not matter); which of the two is a fixed function of the request
         let early = spec.builds.len() % 2 == 1;
         let mut configured = false;
         for b in &spec.builds {
+            if !warmed && matches!(b, Build::Connect(..) | Build::Loopback { .. }) {
+                let x = warm_input(&spec.input);
+                let _ = std::panic::catch_unwind(std::panic::AssertUnwindSafe(|| net.predict(&x)));
+                warmed = true;
+            }
             if early && !configured && matches!(b, Build::Connect(..) | Build::Loopback { .. }) {
                 net.set_accumulation(acc_of(&spec.skipacc), acc_of(&spec.loopacc));
                 configured = true;
@@ -233,12 +255,20 @@ pub fn build(spec: &NetSpec) -> Result<Network, String> {
                 Build::Loopback { outof, into, iterations, scale, inskips } => net.loopback(*outof, *into, *iterations, scale_of(scale), *inskips),
             }
         }
+        if !warmed && !net.layers.is_empty() {
+            let x = warm_input(&spec.input);
+            let _ = std::panic::catch_unwind(std::panic::AssertUnwindSafe(|| net.predict(&x)));
+        }
         if !configured {
             net.set_accumulation(acc_of(&spec.skipacc), acc_of(&spec.loopacc));
         }
         net.set_objective(obj_of(&spec.obj), spec.clamp);
         if let Some(o) = &spec.opt {
             net.set_optimizer(o.create());
+        }
+        if warm && !net.layers.is_empty() {
+            let x = warm_input(&spec.input);
+            let _ = std::panic::catch_unwind(std::panic::AssertUnwindSafe(|| net.predict(&x)));
         }
         net
     })
@@ -350,8 +380,12 @@ pub fn exec(ctx: &mut Ctx, op: &str, p: &mut Toks) -> String {
         return format!("bad unknown op {}", op);
     }
     let spec = NetSpec::parse(p);
-    let cmd = p.tok().to_string();
-    let built = build(&spec);
+    let mut cmd = p.tok().to_string();
+    let warm = cmd == "warm";
+    if warm {
+        cmd = p.tok().to_string();
+    }
+    let built = build_with(&spec, warm);
     crate::ops::props::net_oracles_build(ctx, &spec, &built);
     let mut net = match built {
         Ok(n) => n,
